@@ -23,20 +23,20 @@ Proof.
 Qed.
 
 Lemma access_accepted_iff_every_index_in_range_l : forall ak m dims idxs,
-  supported ak dims -> dims_fit dims ->
+  dims_fit dims ->
   ((exists k, resolve ak m dims (size dims) idxs = inl k) <-> in_range dims idxs) /\
   (forall k, resolve ak m dims (size dims) idxs = inl k -> k = row_major dims idxs /\ 0 <= k < size dims).
 Proof.
-  intros ak m dims idxs Hs Hd. destruct (resolve_accepts_iff_l ak m dims idxs Hs Hd) as [A B].
+  intros ak m dims idxs Hd. destruct (resolve_accepts_iff_l ak m dims idxs Hd) as [A B].
   split; [exact A|]. intros k H. split; [apply B; exact H|eapply resolve_lt_size_l; eauto].
 Qed.
 
-Lemma access_cells_are_a_bijection_l : forall ak m dims, supported ak dims -> dims_fit dims ->
+Lemma access_cells_are_a_bijection_l : forall ak m dims, dims_fit dims ->
   (forall a b k, resolve ak m dims (size dims) a = inl k -> resolve ak m dims (size dims) b = inl k -> a = b) /\
   (positive_dims dims -> forall k, 0 <= k < size dims ->
      exists idxs, in_range dims idxs /\ resolve ak m dims (size dims) idxs = inl k).
 Proof.
-  intros ak m dims Hs Hd. split.
+  intros ak m dims Hd. split.
   - intros a b k. apply resolve_injective_l; assumption.
   - intros Hp k Hk. apply resolve_surjective_l; assumption.
 Qed.
@@ -50,29 +50,30 @@ Lemma former_narrowing_witnesses_rejected_l :
   snd (step ANamed [2; 3] 4096 (mkst [1; 2; 3; 4; 5; 6] None) (OAddr [4294967297; 1])) = RErr EBounds.
 Proof. repeat split; vm_compute; reflexivity. Qed.
 
-Lemma member_rank3_in_range_rejected_refuted_l :
-  exists dims idxs, in_range dims idxs /\ resolve AMember Rd dims (size dims) idxs = inr EBounds /\
-                    resolve AMember Wr dims (size dims) idxs = inl 0.
-Proof. exists [2; 2; 3], [0; 0; 0]. split; [cbn [in_range]; lia|]. split; reflexivity. Qed.
+(* the witness of the former rank-3 struct-member defect: read and write address cell 0 / the last cell *)
+Lemma member_rank3_access_accepted_l :
+  resolve AMember Rd [2; 2; 3] 12 [0; 0; 0] = inl 0 /\ resolve AMember Wr [2; 2; 3] 12 [0; 0; 0] = inl 0 /\
+  resolve AMember Rd [2; 2; 3] 12 [1; 1; 2] = inl 11 /\ resolve AMember Rd [2; 2; 3] 12 [1; 2; 0] = inr EBounds.
+Proof. repeat split; vm_compute; reflexivity. Qed.
 
 Lemma pointer_stays_inside_array_l : forall ak dims base ops s, wf dims s ->
   wf dims (snd (run_checked ak dims base ops s)) /\ wf dims (snd (run_plain ak dims base ops s)).
 Proof. intros. split; [apply run_checked_wf|apply run_plain_wf]; assumption. Qed.
 
 Lemma machine_refines_shadow_array_l : forall ak dims base ops s ss,
-  env_ok ak dims base -> Forall (op_ok dims) ops -> wf dims s -> R dims s ss ->
+  env_ok dims base -> wf dims s -> R dims s ss ->
   Forall2 same (fst (run_plain ak dims base ops s)) (fst (srun_plain dims ops ss)) /\
   R dims (snd (run_plain ak dims base ops s)) (snd (srun_plain dims ops ss)).
 Proof. intros. apply run_plain_refines_l; assumption. Qed.
 
 Lemma checked_machine_refines_shadow_array_l : forall ak dims base ops s ss,
-  env_ok ak dims base -> Forall (op_ok dims) ops -> wf dims s -> R dims s ss ->
+  env_ok dims base -> wf dims s -> R dims s ss ->
   Forall2 same (fst (run_checked ak dims base ops s)) (fst (srun_checked dims ops ss)) /\
   R dims (snd (run_checked ak dims base ops s)) (snd (srun_checked dims ops ss)).
 Proof. intros. apply run_checked_refines_l; assumption. Qed.
 
 Lemma checked_access_is_err_iff_rejected_l : forall ak dims base ops s ss,
-  env_ok ak dims base -> Forall (op_ok dims) ops -> wf dims s -> R dims s ss ->
+  env_ok dims base -> wf dims s -> R dims s ss ->
   List.length (fst (run_checked ak dims base ops s)) = List.length ops /\
   Forall2 (fun r r' => (exists e, r = RErr e) <-> r' = None)
           (fst (run_checked ak dims base ops s)) (fst (srun_checked dims ops ss)).
@@ -90,10 +91,13 @@ Lemma pointer_huge_offset_rejected_l : forall base n e plus k,
   max_ptr_offset < k \/ k < - max_ptr_offset -> ptr_arith base n e plus k = None.
 Proof. exact ptr_arith_huge_rejected_l. Qed.
 
-Lemma pointer_index_into_multidim_rejected_refuted_l :
-  exists dims s, wf dims s /\ snd (step ANamed dims 4096 s ODeref) = RVal 6 /\
-                 snd (step ANamed dims 4096 s (OPtrRead 0)) = RErr EBounds.
-Proof. exists [2; 3], (mkst [1; 2; 3; 4; 5; 6] (Some 5)). split; [split; cbn; lia|]. split; reflexivity. Qed.
+(* the witness of the former p[k]-into-N-D defect: p = &m[1][2] on int[2][3]; p[0], p[-3], p[-5] read cells, p[1] is outside *)
+Lemma pointer_index_into_multidim_reads_cell_l :
+  let s := mkst [1; 2; 3; 4; 5; 6] (Some 5) in
+  snd (step ANamed [2; 3] 4096 s (OPtrRead 0)) = RVal 6 /\ snd (step ANamed [2; 3] 4096 s (OPtrRead (-3))) = RVal 3 /\
+  snd (step ANamed [2; 3] 4096 s (OPtrRead (-5))) = RVal 1 /\ snd (step ANamed [2; 3] 4096 s (OPtrRead 1)) = RErr EBounds /\
+  cells (fst (step ANamed [2; 3] 4096 s (OPtrWrite (-2) 9))) = [1; 2; 3; 9; 5; 6].
+Proof. repeat split; vm_compute; reflexivity. Qed.
 
 Lemma builtin_array_get_never_rejects_refuted_l : forall n heap,
   exists idx, ~ (0 <= idx < n) /\ (forall e, builtin_get heap idx <> RErr e) /\
